@@ -82,9 +82,18 @@ def run_real(n, alpha, eps, q0, seed, ops):
         else:
             env._curr_best_loss = op[1]
             try:
-                r = env.get_reward(None, op[2])
+                if len(trace) % 2 == 0:
+                    r = env.get_reward(None, op[2])
+                else:
+                    # the way the scheduler delivers it: through the environment's step() (outcome waiting in its queue)
+                    env._in_queue.put((None, op[2]))
+                    _, r, _, ended, _ = env.step(np.int64(0))
+                    env._out_queue.get_nowait()
+                    r = float(r) if not ended else "session-ended"
             except ArithmeticError as e:      # e.g. ZeroDivisionError with Python floats
                 r = type(e).__name__
+                while not env._out_queue.empty():
+                    env._out_queue.get_nowait()
             lean_ops.append(f"R {f2h(op[1])} {f2h(op[2])}")
             outs.append(f"{f2h(r) if not isinstance(r, str) else r} {f2h(env._curr_best_loss)}")
             trace.append(("R", op[1], op[2], r, env._curr_best_loss))
